@@ -38,8 +38,8 @@ ASSUMPTIONS = [
     'opacity data are installed before the chemistry object is built (availability is read at construction)',
     'trace totals within 4 eps*k of one (but not exactly one) are counted, not judged',
 ]
-_Q = {'mixture': 180, 'gas': 500, 'model': 20}
-_T = {'mixture': 2600, 'gas': 7000, 'model': 250}
+_Q = {'mixture': 180, 'gas': 500, 'model': 20, 'routes': 120}
+_T = {'mixture': 2600, 'gas': 7000, 'model': 250, 'routes': 1500}
 BUDGET = {
     'quick': [dict(name='main', env={}, shards=8, cases=_Q)],
     'thorough': [dict(name='main', env={}, shards=16, cases=_T),
@@ -51,11 +51,15 @@ REQUIRED = dict(
               'contract:chem.mu-independent-masses', 'contract:chem.active-inactive-split',
               'contract:chem.split-profiles-aligned', 'contract:chem.rejects-traces-above-one', 'contract:chem.shape',
               'contract:gas.one-per-layer', 'contract:gas.finite', 'contract:gas.within-controls',
-              'rejects-above-one', 'accepts-valid', 'contract-fired'],
+              'rejects-above-one', 'accepts-valid', 'contract-fired', 'routes:split-by-availability',
+              'routes:one-row-per-gas-one-value-per-layer', 'routes:nonnegative-finite', 'routes:sums-to-one',
+              'routes:profile-as-declared', 'routes:get_gas_mix_profile-is-the-row', 'routes:mu-weighted-sum'],
     classes=['gas-added-after-initialisation', 'grid:integer-decades', 'after-rejection:abundances-written-down', 'after-rejection:valid-sample-accepted', 'gas:ConstantGas', 'gas:TwoLayerGas', 'gas:TwoPointGas', 'gas:ArrayGas', 'gas:PowerGas',
              'fill:1', 'fill:2', 'fill:3', 'fill:4', 'ratio:float', 'ratio:list', 'mixture:dilute', 'mixture:heavy',
              'mixture:unity', 'mixture:exceed', 'avail:memory', 'avail:file', 'avail:none', 'fill-gas-active',
-             'trace-inactive', 'nlayers:2', 'nlayers:100', 'via-forward-model', 'via-setter', 'twolayer:smoothed'])
+             'trace-inactive', 'nlayers:2', 'nlayers:100', 'via-forward-model', 'via-setter', 'twolayer:smoothed',
+             'route:file', 'route:makefree+file', 'file-gases:1', 'routes:abundance-written',
+             'routes:gas-added-after-initialisation', 'routes:active-gas-added-later'])
 
 NLAYERS = list(range(2, 61)) + [100]
 FILL_POOL = ['H2', 'He', 'Ne', 'N2', 'CO2', 'Ar', 'O2']
@@ -426,6 +430,133 @@ def wl_model(ctx, rng):
     ctx.sig('model', tuple(fills), tuple(ratios), tuple((g.molecule, type(g).__name__) for g in gases), n)
 
 
+def wl_routes(ctx, rng):
+    """The other two shipped routes to a composition: a table read from a file (``chemistry_type = file``) and the same
+    made free with the MakeFreeMixin (``makefree+file``; gases injected with ``addGas``, those already in the table are
+    forced).  File: one value per layer and gas as written, split by opacity availability, mu the weighted sum.
+    Make-free: every profile (table columns, injected gases replacing their column) divided by their sum -- non-negative,
+    summing to one, mu the weighted sum of THAT mixture.  The same object is initialised again after abundances were
+    written through the fitting parameters and after a further gas was added."""
+    import tempfile
+    from taurex.data.profiles.chemistry import ChemistryFile
+    from taurex.mixin import enhance_class, MakeFreeMixin
+    from taurex.util.util import get_molecular_weight
+    n = gen_nlayers(rng)
+    P, T, gk = gen_grid(rng, n)
+    nf = int(rng.integers(1, 4))
+    fills = [str(m) for m in rng.choice(FILL_POOL, nf, replace=False)]
+    ntr = int(rng.integers(0, 4)) if nf > 1 or rng.random() < 0.7 else 0
+    in_file = [str(m) for m in rng.choice(TRACE_POOL, ntr, replace=False)]
+    gases = fills + in_file
+    cols = {m: 10 ** rng.uniform(-9, -2) * (np.ones(n) if rng.random() < 0.5 else 10 ** rng.uniform(-1, 0, n)) for m in in_file}
+    rest = 1.0 - sum(cols.values()) if cols else np.ones(n)
+    w = np.array([1.0] + [float(10 ** rng.uniform(-3, 0)) for _ in fills[1:]])
+    for m, r in zip(fills, w):
+        cols[m] = rest * r / w.sum()
+    order = [int(i) for i in rng.permutation(len(gases))]
+    gases = [gases[i] for i in order]
+    table = np.column_stack([cols[m] for m in gases])
+    makefree = bool(rng.random() < 0.65)
+    inject = []
+    if makefree:
+        k = int(rng.integers(1, 4))
+        pool = [m for m in TRACE_POOL if m not in gases]
+        names = [str(m) for m in rng.choice(pool, k, replace=False)]
+        if in_file and rng.random() < 0.6:
+            names[0] = in_file[int(rng.integers(0, len(in_file)))]          # forced: already in the table
+        if rng.random() < 0.15:
+            names[-1] = fills[int(rng.integers(0, nf))]                     # a main constituent forced
+        names = list(dict.fromkeys(names))
+        inject = [(m, gen_gas(ctx, rng, m, GAS_KINDS[rng.integers(0, 4)], P, 0.1 / len(names))) for m in names]
+    avail, d = make_availability(ctx, rng, gases + [m for m, _ in inject])
+    fd, fn = tempfile.mkstemp(suffix='.dat', prefix='c10_chem_', dir=ctx.scratch)
+    os.close(fd)
+    np.savetxt(fn, table, fmt='%.17e')
+    ctx.observe('route:makefree+file' if makefree else 'route:file', 'file-gases:%s' % ('1' if len(gases) == 1 else '2+'),
+                'nlayers:%d' % n)
+    ctx.feature(kind='routes', makefree=makefree, file_gases=gases, injected=[(m, type(g).__name__) for m, g in inject],
+                nlayers=n, available=sorted(avail))
+    try:
+        if makefree:
+            chem = enhance_class(ChemistryFile, MakeFreeMixin, gases=list(gases), filename=fn)
+            for m, g in inject:
+                chem.addGas(g)
+        else:
+            chem = ChemistryFile(gases=list(gases), filename=fn)
+
+        def reference(injected):
+            X = {m: np.array(table[:, i], dtype=float) for i, m in enumerate(gases)}
+            if not makefree:
+                return X
+            for m, g in injected:
+                X[m] = np.array(g.mixProfile, dtype=float) * np.ones(n)       # the gas object's own profile (C10 gas contracts)
+            tot = sum(X.values())
+            return {m: v / tot for m, v in X.items()}
+
+        def judge_now(tag, injected):
+            chem.initialize_chemistry(n, T, P, None)
+            ref = reference(injected)
+            act, ina = list(chem.activeGases), list(chem.inactiveGases)
+            ctx.check('routes:split-by-availability', sorted(act) == sorted(m for m in ref if m in avail)
+                      and sorted(ina) == sorted(m for m in ref if m not in avail), active=act, inactive=ina,
+                      available=sorted(avail), species=sorted(ref), step=tag)
+            rows = {}
+            for names_, prof in ((act, chem.activeGasMixProfile), (ina, chem.inactiveGasMixProfile)):
+                if not names_:
+                    continue
+                prof = np.asarray(prof, dtype=float)
+                if not ctx.check('routes:one-row-per-gas-one-value-per-layer', prof.shape == (len(names_), n),
+                                 shape=list(prof.shape), want=[len(names_), n], step=tag):
+                    return
+                for i, m in enumerate(names_):
+                    rows[m] = prof[i]
+            allx = np.array([rows[m] for m in rows])
+            ctx.check('routes:nonnegative-finite', bool(np.all(np.isfinite(allx)) and np.all(allx >= 0)), step=tag)
+            if makefree:
+                ctx.close('routes:sums-to-one', allx.sum(axis=0), np.ones(n), 1e-12, step=tag, species=list(rows))
+            for m in rows:
+                if m in ref:
+                    ctx.close('routes:profile-as-declared', rows[m], ref[m], 1e-12, atol=1e-300, gas=m, step=tag,
+                              forced=bool(makefree and m in gases and m in [q for q, _ in injected]))
+                got = np.asarray(chem.get_gas_mix_profile(m), dtype=float)
+                ctx.check('routes:get_gas_mix_profile-is-the-row', got.shape == (n,) and bool(np.array_equal(got, rows[m])),
+                          gas=m, shape=list(got.shape), step=tag)
+            mu = sum(get_molecular_weight(m) * rows[m] for m in rows)
+            ctx.close('routes:mu-weighted-sum', np.asarray(chem.muProfile, dtype=float), mu, 1e-12, step=tag)
+            return rows
+
+        judge_now('first', inject)
+        if makefree:
+            for step in range(int(rng.integers(1, 4))):
+                fp = chem.fitting_parameters()
+                writable = [m for m, g in inject if m in fp]
+                if writable and rng.random() < 0.7:
+                    m = writable[int(rng.integers(0, len(writable)))]
+                    v = float(10 ** rng.uniform(-9, -1.5))
+                    fp[m][3](v)
+                    ctx.observe('routes:abundance-written')
+                    judge_now('written:' + m, inject)
+                else:
+                    pool = [q for q in TRACE_POOL if q not in gases and q not in [x for x, _ in inject]]
+                    m = str(rng.choice(pool))
+                    g = gen_gas(ctx, rng, m, 'ConstantGas', P, 0.05)
+                    chem.addGas(g)
+                    inject = inject + [(m, g)]
+                    if m in avail:
+                        ctx.observe('routes:active-gas-added-later')
+                    ctx.observe('routes:gas-added-after-initialisation')
+                    judge_now('added:' + m, inject)
+    finally:
+        try:
+            os.remove(fn)
+        except OSError:
+            pass
+        if d is not None:
+            shutil.rmtree(d, ignore_errors=True)
+    ctx.sig('routes', makefree, tuple(gases), tuple(m for m, _ in inject), n, gk)
+
+
+
 def wl_repo_tests(ctx, rng):
     """The repository's own chemistry tests, run in this process with the contracts on (DESIGN 3.4).  Their opacity
     mocks are not the world's: availability is not recorded, so the active/inactive contract only counts them."""
@@ -455,7 +586,7 @@ def wl_repo_tests(ctx, rng):
     ctx.sig('repo-tests', 2)
 
 
-WORKLOADS = {'repo_tests': wl_repo_tests, 'mixture': wl_mixture, 'gas': wl_gas, 'model': wl_model}
+WORKLOADS = {'repo_tests': wl_repo_tests, 'mixture': wl_mixture, 'gas': wl_gas, 'model': wl_model, 'routes': wl_routes}
 
 LEVEL_TEXT = ('Exploration by runtime monitoring: icontract postconditions attached from the harness to TaurexChemistry.initialize_chemistry '
               'and to initialize_profile of every built-in gas profile judge each initialisation the workloads (and forward models they '
